@@ -30,6 +30,9 @@ use stun::textattrs::TextAttribute;
 use stun::xoraddr::XorMappedAddress;
 use vh::{Violation, hex};
 
+#[path = "../c16deep.rs"]
+mod deep;
+
 // ---------------------------------------------------------------------------------------
 // Domains
 // ---------------------------------------------------------------------------------------
@@ -83,6 +86,22 @@ fn addrs() -> Vec<SocketAddr> {
         SocketAddr::new(IpAddr::V6("2001:db8::ff".parse().unwrap()), 0x2112),
         SocketAddr::new(IpAddr::V6(Ipv6Addr::from([0xff; 16])), 65535),
     ]
+}
+
+/// The six addresses above followed by more (thorough-tier large pair sweep). Indices 0..6 are
+/// the original ones, so labels and replay files of the original sweep are unchanged.
+fn addrs_ext() -> &'static Vec<SocketAddr> {
+    static V: std::sync::OnceLock<Vec<SocketAddr>> = std::sync::OnceLock::new();
+    V.get_or_init(|| {
+        let mut v = addrs();
+        for s in [
+            "192.0.2.1:3478", "33.18.164.66:8466", "10.0.0.1:65535", "1.2.3.4:1", "128.0.0.0:32768", "224.0.0.251:5353",
+            "[::]:0", "[2001:db8::1]:8466", "[fe80::1]:65535", "[::ffff:192.0.2.1]:3478", "[2112:a442:123:4567:89ab:cdef:1032:5476]:8466", "[ff02::fb]:5353",
+        ] {
+            v.push(s.parse().unwrap());
+        }
+        v
+    })
 }
 
 const TXIDS: [[u8; 12]; 3] = [
@@ -200,7 +219,7 @@ impl A {
                 format!("{}[len={}]", self.kind(), n)
             }
             A::XorPeer(i) | A::XorMapped(i) | A::XorRelayed(i) => {
-                format!("{}[{}]", self.kind(), if *i < 3 { "v4" } else { "v6" })
+                format!("{}[{}]", self.kind(), if addrs_ext()[*i].is_ipv4() { "v4" } else { "v6" })
             }
             A::ErrorCode(c, n) => format!("ERROR-CODE[{c},reason={n}]"),
             _ => self.kind().to_string(),
@@ -1300,21 +1319,49 @@ mod turn_part {
         pub user: String,
         pub realm: String,
         pub pass: String,
+        /// thorough deep blocks: 0 = payload lengths {1,3,4,1199}; n > 0 = every length 1..=n
+        pub sweep_to: usize,
+        /// thorough deep blocks: reach the server over TCP (`turn:...?transport=tcp`) through the
+        /// harness's RFC 5766 stream front end
+        pub tcp: bool,
     }
     impl TurnCase {
+        pub fn new(user: &str, realm: &str, pass: &str) -> TurnCase {
+            TurnCase { user: user.into(), realm: realm.into(), pass: pass.into(), sweep_to: 0, tcp: false }
+        }
         pub fn to_json(&self) -> Value {
-            json!({"part": "turn", "user": self.user, "realm": self.realm, "pass": self.pass})
+            let mut v = json!({"part": "turn", "user": self.user, "realm": self.realm, "pass": self.pass});
+            if self.sweep_to != 0 {
+                v["sweep_to"] = json!(self.sweep_to);
+            }
+            if self.tcp {
+                v["transport"] = json!("tcp");
+            }
+            v
         }
         pub fn from_json(v: &Value) -> Option<TurnCase> {
             Some(TurnCase {
                 user: v["user"].as_str()?.to_string(),
                 realm: v["realm"].as_str()?.to_string(),
                 pass: v["pass"].as_str()?.to_string(),
+                sweep_to: v["sweep_to"].as_u64().unwrap_or(0) as usize,
+                tcp: v["transport"].as_str() == Some("tcp"),
             })
         }
         pub fn label(&self) -> String {
             let c = |s: &str| format!("{}{}", s.len(), if s.is_ascii() { "" } else { "u" });
-            format!("user={};realm={};pass={}", c(&self.user), c(&self.realm), c(&self.pass))
+            format!("user={};realm={};pass={}{}{}", c(&self.user), c(&self.realm), c(&self.pass), if self.tcp { ";transport=tcp" } else { "" }, if self.sweep_to != 0 { ";payload-sweep" } else { "" })
+        }
+        pub fn lens(&self) -> Vec<usize> {
+            if self.sweep_to == 0 {
+                PAYLOAD_LENS.to_vec()
+            } else if self.tcp {
+                // every padding remainder many times over, and the large end; the stream leg
+                // costs tens of milliseconds per message (no TCP_NODELAY in the client)
+                (1..=64).chain(self.sweep_to.saturating_sub(63)..=self.sweep_to).collect()
+            } else {
+                (1..=self.sweep_to).collect()
+            }
         }
     }
 
@@ -1349,6 +1396,8 @@ mod turn_part {
         pub problems: Vec<Fail>,           // client->server messages the reference rejects
         pub mi_checked: u64,
         pub fp_checked: u64,
+        /// things seen that the property does not speak about (reported, not judged)
+        pub notes: Vec<String>,
     }
 
     #[derive(Default)]
@@ -1495,12 +1544,67 @@ mod turn_part {
         .await
         .map_err(|e| mach(format!("turn server: {e}")))?;
 
+        let obs = Arc::new(Mutex::new(Observed::default()));
+        // TCP: the harness's stream front end (RFC 5766 s2.1 / RFC 5389 s7.2.2: STUN messages
+        // delimit themselves by their length field, ChannelData is padded to four bytes, nothing
+        // else is on the stream) in front of the reference UDP server
+        let tcp_listener = if tc.tcp { Some(tokio::net::TcpListener::bind("127.0.0.1:0").await.map_err(|e| mach(e.to_string()))?) } else { None };
         // recording proxy: client <-> proxy <-> server
         let front = Arc::new(UdpSocket::bind("127.0.0.1:0").await.map_err(|e| mach(e.to_string()))?);
         let back = Arc::new(UdpSocket::bind("127.0.0.1:0").await.map_err(|e| mach(e.to_string()))?);
-        let proxy_addr = front.local_addr().unwrap();
-        let obs = Arc::new(Mutex::new(Observed::default()));
-        let proxy = {
+        let proxy_addr = match &tcp_listener {
+            Some(l) => l.local_addr().unwrap(),
+            None => front.local_addr().unwrap(),
+        };
+        let proxy = if let Some(listener) = tcp_listener {
+            let (obs, tc) = (obs.clone(), tc.clone());
+            tokio::spawn(async move {
+                let mut conns = vec![];
+                loop {
+                    let Ok((stream, _)) = listener.accept().await else { break };
+                    let _ = stream.set_nodelay(true);
+                    let Ok(back) = UdpSocket::bind("127.0.0.1:0").await else { break };
+                    let back = Arc::new(back);
+                    let (mut rd, mut wr) = stream.into_split();
+                    let (obs1, tc1, back1) = (obs.clone(), tc.clone(), back.clone());
+                    // client -> server
+                    conns.push(tokio::spawn(async move {
+                        let mut pos = 0usize;
+                        loop {
+                            match read_stream_message(&mut rd).await {
+                                Ok(Some((msg, consumed))) => {
+                                    pos += consumed;
+                                    judge_client_datagram(&mut obs1.lock().unwrap(), &tc1, &msg);
+                                    let _ = back1.send_to(&msg, srv_addr).await;
+                                }
+                                Ok(None) => break,
+                                Err(e) => {
+                                    obs1.lock().unwrap().problems.push(("tcp-stream-framing".into(), format!("at stream offset {pos}: {e}")));
+                                    break; // the connection is closed: nothing after a framing error can be trusted
+                                }
+                            }
+                        }
+                    }));
+                    // server -> client
+                    let obs2 = obs.clone();
+                    conns.push(tokio::spawn(async move {
+                        use tokio::io::AsyncWriteExt;
+                        let mut b = vec![0u8; 4096];
+                        let mut seen401 = false;
+                        while let Ok((n, _)) = back.recv_from(&mut b).await {
+                            judge_server_datagram(&mut obs2.lock().unwrap(), &b[..n], &mut seen401);
+                            let mut out = b[..n].to_vec();
+                            if n >= 4 && b[0] & 0xc0 == 0x40 {
+                                out.resize(n.div_ceil(4) * 4, 0);
+                            }
+                            if wr.write_all(&out).await.is_err() {
+                                break;
+                            }
+                        }
+                    }));
+                }
+            })
+        } else {
             let (front, back, obs, tc) = (front.clone(), back.clone(), obs.clone(), tc.clone());
             tokio::spawn(async move {
                 let mut client: Option<SocketAddr> = None;
@@ -1524,12 +1628,13 @@ mod turn_part {
                 }
             })
         };
+        let _ = (&front, &back);
 
         // the stack under test
         let mut config = RtcConfiguration::default();
         config.ice_transport_policy = IceTransportPolicy::Relay;
         config.ice_servers.push(
-            IceServer::new(vec![format!("turn:{proxy_addr}")]).with_credential(tc.user.clone(), tc.pass.clone()),
+            IceServer::new(vec![if tc.tcp { format!("turn:{proxy_addr}?transport=tcp") } else { format!("turn:{proxy_addr}") }]).with_credential(tc.user.clone(), tc.pass.clone()),
         );
         let (transport, runner) = IceTransportBuilder::new(config).role(IceRole::Controlling).build();
         let runner = tokio::spawn(runner);
@@ -1548,6 +1653,44 @@ mod turn_part {
             return Err(("no-auth-call".into(), "server never saw an authenticated request".into()));
         }
         Ok(SessionOk { observed, relayed })
+    }
+
+    /// One message off a TURN-over-TCP stream, read the way RFC 5766 s2.1 / RFC 5389 s7.2.2
+    /// frame it. Ok(None) = clean end of stream. Returns the message (ChannelData without its
+    /// padding) and the number of stream bytes consumed.
+    async fn read_stream_message(rd: &mut tokio::net::tcp::OwnedReadHalf) -> Result<Option<(Vec<u8>, usize)>, String> {
+        use tokio::io::AsyncReadExt;
+        let mut h = [0u8; 4];
+        match rd.read(&mut h[..1]).await {
+            Ok(0) | Err(_) => return Ok(None),
+            Ok(_) => {}
+        }
+        rd.read_exact(&mut h[1..]).await.map_err(|e| format!("stream ends inside a message header: {e}"))?;
+        let len = u16::from_be_bytes([h[2], h[3]]) as usize;
+        match h[0] >> 6 {
+            0 => {
+                let mut rest = vec![0u8; 16 + len];
+                if len % 4 != 0 {
+                    return Err(format!("bytes {} start like a STUN message but its length field {len} is not a multiple of four (a two-byte length prefix in front of the message would look like this)", hex(&h)));
+                }
+                rd.read_exact(&mut rest).await.map_err(|e| format!("stream ends inside a STUN message: {e}"))?;
+                if rest[0..4] != [0x21, 0x12, 0xa4, 0x42] {
+                    return Err(format!("bytes {}{} start like a STUN message but carry no magic cookie at offset 4", hex(&h), hex(&rest[..4])));
+                }
+                let mut m = h.to_vec();
+                m.extend_from_slice(&rest);
+                Ok(Some((m, 20 + len)))
+            }
+            1 => {
+                let padded = len.div_ceil(4) * 4;
+                let mut rest = vec![0u8; padded];
+                rd.read_exact(&mut rest).await.map_err(|e| format!("stream ends inside a ChannelData message (its padding to four bytes is mandatory over TCP): {e}"))?;
+                let mut m = h.to_vec();
+                m.extend_from_slice(&rest[..len]);
+                Ok(Some((m, 4 + padded)))
+            }
+            _ => Err(format!("bytes {} are neither a STUN message nor ChannelData", hex(&h))),
+        }
     }
 
     async fn drive(
@@ -1569,8 +1712,10 @@ mod turn_part {
         let mut gs = transport.subscribe_gathering_state();
         let _ = tokio::time::timeout(Duration::from_secs(20), async {
             while *gs.borrow() != IceGathererState::Complete {
-                if gs.changed().await.is_err() {
-                    break;
+                tokio::select! {
+                    r = gs.changed() => if r.is_err() { break },
+                    // the stream front end closed the connection on a framing error: nothing more will happen
+                    _ = tokio::time::sleep(Duration::from_millis(50)) => if obs.lock().unwrap().problems.iter().any(|p| p.0 == "tcp-stream-framing") { break },
                 }
             }
         })
@@ -1586,6 +1731,17 @@ mod turn_part {
                 format!("no relay candidate: reference server did not grant the allocation (client sent {:?}, server errors {:?})", o.client_stun, o.server_errors),
             ));
         };
+        if _tc.tcp && relay.transport != "udp" {
+            // The allocation was granted over the stream (framing, long-term MI and FINGERPRINT were
+            // judged on the way). rustrtc labels a relayed candidate obtained over TCP as a tcp
+            // candidate and so never pairs it with a UDP peer: the data path cannot be reached.
+            // That is a matter of candidate gathering / pairing, not of message encoding: noted.
+            obs.lock().unwrap().notes.push(format!("relay candidate obtained over TURN/TCP is labelled transport={} (relayed addresses are UDP): data path over TCP not reached", relay.transport));
+            if let Some(p) = first_problem(obs) {
+                return Err(p);
+            }
+            return Ok(0);
+        }
         // 2. permission + channel towards P1 via a real connectivity check
         let p1 = Arc::new(UdpSocket::bind("127.0.0.1:0").await.map_err(|e| mach(e.to_string()))?);
         let p2 = UdpSocket::bind("127.0.0.1:0").await.map_err(|e| mach(e.to_string()))?;
@@ -1692,7 +1848,9 @@ mod turn_part {
         // 3. payloads: channel path (P1 has a channel), indication path (P2 has only the
         //    per-IP permission), and both return paths.
         let mut relayed = 0u64;
-        for (k, n) in PAYLOAD_LENS.iter().enumerate() {
+        let lens = _tc.lens();
+        for (k, n) in lens.iter().enumerate() {
+            let k = k % 13;
             let chan = payload(*n, 1 + k as u8);
             let ind = payload(*n, 0x11 + k as u8);
             sock.send_to(&chan, a1).await.map_err(|e| mach(format!("send_to: {e}")))?;
@@ -1801,6 +1959,7 @@ fn run_turn(rep: &mut vh::Report, cases: Vec<turn_part::TurnCase>, conc: usize) 
     let mut fails: BTreeMap<String, (turn_part::TurnCase, String, u64)> = BTreeMap::new();
     let mut kinds: HashSet<String> = HashSet::new();
     let (mut mi, mut fp, mut relayed, mut chan, mut ind) = (0u64, 0u64, 0u64, 0u64, 0u64);
+    let mut notes: Vec<String> = rep.coverage.get("turn_notes_not_judged").and_then(|v| v.as_array()).map(|a| a.iter().filter_map(|v| v.as_str().map(|s| s.to_string())).collect()).unwrap_or_default();
     for (tc, r, attempts) in results {
         if attempts > 1 {
             retried += 1;
@@ -1815,6 +1974,15 @@ fn run_turn(rep: &mut vh::Report, cases: Vec<turn_part::TurnCase>, conc: usize) 
                 ind += s.observed.client_send_ind.len() as u64;
                 for k in &s.observed.client_stun {
                     kinds.insert(k.clone());
+                }
+                for n in &s.observed.notes {
+                    if !notes.contains(n) {
+                        notes.push(n.clone());
+                    }
+                }
+                if tc.tcp {
+                    rep.add("turn_tcp_sessions_ok", 1);
+                    rep.add("turn_tcp_payloads_relayed_byte_exact", s.relayed);
                 }
                 if ok == 1 {
                     rep.sample(json!({"part": "turn", "case": tc.to_json(), "client_messages": s.observed.client_stun,
@@ -1839,6 +2007,7 @@ fn run_turn(rep: &mut vh::Report, cases: Vec<turn_part::TurnCase>, conc: usize) 
             replay: tc.to_json(),
         });
     }
+    rep.set("turn_notes_not_judged", json!(notes));
     rep.add("turn_sessions", n as u64);
     rep.add("turn_sessions_ok", ok);
     rep.add("turn_sessions_machinery_skipped", mach);
@@ -1852,6 +2021,9 @@ fn run_turn(rep: &mut vh::Report, cases: Vec<turn_part::TurnCase>, conc: usize) 
     rep.add("turn_payloads_relayed_byte_exact", relayed);
     rep.add("turn_client_channeldata_seen", chan);
     rep.add("turn_client_send_indications_seen", ind);
+    if let Some(prev) = rep.coverage.get("turn_client_message_kinds").and_then(|v| v.as_array()) {
+        kinds.extend(prev.iter().filter_map(|v| v.as_str().map(|s| s.to_string())));
+    }
     let mut k: Vec<_> = kinds.into_iter().collect();
     k.sort();
     rep.set("turn_client_message_kinds", json!(k));
@@ -1872,9 +2044,33 @@ fn replay(cli: &vh::Cli, path: &std::path::Path) -> i32 {
     let mut bad = false;
     for round in 1..=2 {
         match r["part"].as_str() {
+            Some("deep") => {
+                let cx = Ctx { ad: addrs(), keys: keys() };
+                match deep::replay_deep(&cx, &r) {
+                    Ok(class) => println!("run {round}: holds; class {class}"),
+                    Err((cat, d)) => {
+                        bad = true;
+                        println!("run {round}: VIOLATES [{cat}] {d}");
+                    }
+                }
+            }
+            Some("deep-ctor") => match deep::replay_ctor(&r) {
+                Ok(class) => println!("run {round}: holds; class {class}"),
+                Err((cat, d)) => {
+                    bad = true;
+                    println!("run {round}: VIOLATES [{cat}] {d}");
+                }
+            },
+            Some("deep-candidate") => match deep::replay_cand(&r) {
+                Ok(class) => println!("run {round}: holds; class {class}"),
+                Err((cat, d)) => {
+                    bad = true;
+                    println!("run {round}: VIOLATES [{cat}] {d}");
+                }
+            },
             Some("stun") => {
                 let c = Case::from_json(&r).unwrap_or_else(|| vh::machinery_failure("bad stun replay"));
-                let cx = Ctx { ad: addrs(), keys: keys() };
+                let cx = Ctx { ad: addrs_ext().clone(), keys: keys() };
                 match run_case(&cx, &c) {
                     Ok(b) => println!("run {round}: holds; {} bytes: {}", b.len(), vh::truncate(&hex(&b), 200)),
                     Err((cat, d)) => {
@@ -1974,6 +2170,62 @@ fn main() {
     rep.set("stun_decode_distinct_wire_classes", sw_r.classes.len() as u64);
     report_sweep(&mut rep, &sw_r);
 
+    // ---- thorough: deep STUN blocks ---------------------------------------------------
+    if thorough {
+        deep::stun_blocks(&mut rep, &cx);
+        // the original sweep machinery over larger domains
+        let cxe = Ctx { ad: addrs_ext().clone(), keys: keys() };
+        for (dir, inst) in [("encode", deep::fwd_instances_ext()), ("decode", deep::rev_instances_ext())] {
+            let t0 = std::time::Instant::now();
+            let (s1, t1) = sweep_stun(&cxe, dir, &inst, 2, false, false);
+            let (s2, t2) = sweep_stun(&cxe, dir, &inst, 2, true, false);
+            let sw = s1.merge(s2);
+            if sw.evaluations != t1 + t2 {
+                vh::machinery_failure("large pair sweep did not cover its stated space");
+            }
+            report_sweep(&mut rep, &sw);
+            let mut acc = deep::DeepAcc::default();
+            acc.cases = sw.evaluations;
+            acc.passed = sw.passed;
+            for c in &sw.classes {
+                acc.classes.insert(format!("{c:016x}"), 1);
+            }
+            deep::finish_block(&mut rep, &format!("stun_{dir}_pairs_large"), &format!("every ordered pair (and single, and empty list) over {} attribute instances (the original ones + every text/DATA length 0..=20 and 126,128,255,256,511,512,762, DATA 1198..1500, 18 addresses, more scalars{}) x 7 methods x 4 classes x 3 keys x fingerprint x 3 transaction ids", inst.len(), if dir == "decode" { ", 15 error codes" } else { "" }), t1 + t2, &acc, t0.elapsed().as_secs_f64());
+        }
+        for (dir, inst) in [("encode", deep::instances_medium(true)), ("decode", deep::instances_medium(false))] {
+            let t0 = std::time::Instant::now();
+            let (s1, t1) = sweep_stun(&cxe, dir, &inst, 3, false, false);
+            let (s2, t2) = sweep_stun(&cxe, dir, &inst, 3, true, false);
+            let sw = s1.merge(s2);
+            if sw.evaluations != t1 + t2 {
+                vh::machinery_failure("medium multiset sweep did not cover its stated space");
+            }
+            report_sweep(&mut rep, &sw);
+            let mut acc = deep::DeepAcc::default();
+            acc.cases = sw.evaluations;
+            acc.passed = sw.passed;
+            for c in &sw.classes {
+                acc.classes.insert(format!("{c:016x}"), 1);
+            }
+            deep::finish_block(&mut rep, &format!("stun_{dir}_multisets_medium"), &format!("every multiset of size <=3 over {} attribute instances (the original ones + text lengths 2, 6, 126, 128, 512 so that every padding remainder occurs for every kind, DATA 2,3,5,6,7,1400, four more addresses), canonical and reversed order x 7 methods x 4 classes x 3 keys x fingerprint x 3 transaction ids", inst.len()), t1 + t2, &acc, t0.elapsed().as_secs_f64());
+        }
+        for (dir, inst) in [("encode", fwd.clone()), ("decode", rev_instances())] {
+            let t0 = std::time::Instant::now();
+            let (sw, total) = deep::sweep_stun_other_orders(&cx, dir, &inst);
+            if sw.evaluations != total {
+                vh::machinery_failure("order sweep did not cover its stated space");
+            }
+            report_sweep(&mut rep, &sw);
+            let mut acc = deep::DeepAcc::default();
+            acc.cases = sw.evaluations;
+            acc.passed = sw.passed;
+            for c in &sw.classes {
+                acc.classes.insert(format!("{c:016x}"), 1);
+            }
+            deep::finish_block(&mut rep, &format!("stun_{dir}_triples_all_orders"), &format!("the remaining (up to four) orders of every size-3 multiset over the {} original instances x 7 methods x 4 classes x 3 keys x fingerprint x 3 transaction ids: with the original canonical and reversed orders, every ordered triple", inst.len()), total, &acc, t0.elapsed().as_secs_f64());
+        }
+    }
+
     // samples: three real messages, written out
     for (dir, attrs, key, fp, txid) in [
         ("encode", vec![A::Username(5), A::Priority(1), A::Controlling(1)], 1usize, true, 2usize),
@@ -2017,6 +2269,12 @@ fn main() {
         rep.sample(json!({"part": "candidate", "line": l, "verdict": "round-trips"}));
     }
 
+    if thorough {
+        deep::candidate_blocks(&mut rep);
+        deep::ctor_priority_block(&mut rep);
+        deep::pair_priority_lattice(&mut rep);
+    }
+
     // ---- (d) pair priorities ------------------------------------------------------------
     let prios = reachable_priorities(&[]);
     let po = run_priorities(&prios);
@@ -2036,17 +2294,41 @@ fn main() {
     );
 
     // ---- (e) TURN ----------------------------------------------------------------------
-    let vals = turn_part::cred_values();
+    let mut vals = turn_part::cred_values();
+    if thorough {
+        // lengths that move user:realm:pass across the MD5 block boundaries (55/56 and 63/64 bytes), a colon inside a value
+        vals.extend(["q".repeat(17), "Rr".repeat(9), "s".repeat(19), "Tt".repeat(10), "x:y z".to_string()]);
+    }
     let mut tcs = vec![];
     for u in &vals {
         for r in &vals {
             for p in &vals {
-                tcs.push(turn_part::TurnCase { user: u.clone(), realm: r.clone(), pass: p.clone() });
+                tcs.push(turn_part::TurnCase::new(u, r, p));
             }
         }
     }
     let t0 = std::time::Instant::now();
+    let n_cred_sessions = tcs.len();
     run_turn(&mut rep, tcs, 6);
+    if thorough {
+        // every payload length 1..=1250 through ChannelData, Send indication and both return paths
+        let mut sweep = vec![];
+        for (u, r, p) in [("U", "U", "U"), (vals[4].as_str(), vals[4].as_str(), vals[4].as_str()), (vals[3].as_str(), "Seven-7", "eighT 88")] {
+            let mut tc = turn_part::TurnCase::new(u, r, p);
+            tc.sweep_to = 1250;
+            sweep.push(tc);
+        }
+        run_turn(&mut rep, sweep, 3);
+        // the same over TCP (turn:...?transport=tcp) through the harness's RFC 5766 stream front end
+        let mut tcp = vec![];
+        for (u, r, p, sweep_to) in [("U", "U", "U", 0usize), (vals[4].as_str(), vals[4].as_str(), vals[4].as_str(), 0), ("Seven-7", "eighT 88", "U", 1250)] {
+            let mut tc = turn_part::TurnCase::new(u, r, p);
+            tc.tcp = true;
+            tc.sweep_to = sweep_to;
+            tcp.push(tc);
+        }
+        run_turn(&mut rep, tcp, 3);
+    }
     rep.set("turn_wall_s", t0.elapsed().as_secs_f64());
 
     let n_ms_f = multisets(fwd.len(), 3).len();
@@ -2054,7 +2336,7 @@ fn main() {
     // ---- evidence -----------------------------------------------------------------------
     let evaluations = sw_f.evaluations + sw_r.evaluations + cands.len() as u64 + po.evaluations;
     rep.add("evaluations", evaluations);
-    let distinct = sw_f.classes.len() + sw_r.classes.len() + lines.len() + po.distinct_values;
+    let distinct = sw_f.classes.len() + sw_r.classes.len() + lines.len() + po.distinct_values + rep.get("deep_distinct_classes") as usize;
     rep.set("distinct_nontrivial", distinct as u64);
     rep.set("rule", "non-trivial = a STUN case whose wire form carries at least one attribute (counted once per distinct (attribute type sequence, wire length, key kind, fingerprint) class and direction) + distinct candidate lines that round-tripped + distinct pair-priority values computed");
     let turn_skipped = rep.get("turn_sessions_skipped_after_3_confirmed_failures");
@@ -2065,7 +2347,7 @@ fn main() {
         "stun_decode": format!("7 methods x 4 classes x multisets<=3 over {} reference-built attribute instances ({} multisets{}) x 3 keys x fingerprint on/off x 3 transaction ids{} = {} cases", rev.len(), n_ms_r, if thorough { ", canonical and reversed order" } else { ", canonical order" }, if thorough { "" } else { " (size-3 multisets: pattern transaction id only; sizes 0-2: all three)" }, total_r),
         "candidates": "4 types x {udp, tcp x tcptype none/active/passive/so} x components {1,2,256} x {v4,v6} x 3 addresses x raddr {absent,present; non-host} x {bare line, candidate: prefix}",
         "priorities": format!("all ordered pairs over {} priorities (every type x tcptype x component in {{1,2,3,255,256}} + {{0,1,2^31,2^32-1}}), both role assignments; all pairs of pairs for ordering", prios.len()),
-        "turn": "5 users x 5 realms x 5 passwords (byte lengths 1,7,8,64 and a 10-byte non-ASCII value) x payloads {1,3,4,1199} x {ChannelData, Send indication, and both return paths}",
+        "turn": if thorough { format!("{n_cred_sessions} sessions = 10 users x 10 realms x 10 passwords (byte lengths 1,5,7,8,17,18,19,20,64, a 10-byte non-ASCII value, a value with a colon) x payloads {{1,3,4,1199}} x {{ChannelData, Send indication, and both return paths}}; 3 UDP sessions x every payload length 1..=1250 x the same four paths; over TCP (through the harness's RFC 5766 stream front end): 2 sessions x payloads {{1,3,4,1199}} and 1 session x payload lengths 1..=64 and 1187..=1250") } else { "5 users x 5 realms x 5 passwords (byte lengths 1,7,8,64 and a 10-byte non-ASCII value) x payloads {1,3,4,1199} x {ChannelData, Send indication, and both return paths}".to_string() },
     }));
     rep.assume("string attribute contents are one fixed UTF-8 text per (kind, length) with multi-byte characters whenever length >= 3; only the lengths are enumerated");
     rep.assume("attribute multisets are encoded in canonical order (non-decreasing instance index); thorough adds the reversed order; other permutations are not enumerated");
@@ -2075,7 +2357,11 @@ fn main() {
     rep.assume("ICE attributes (PRIORITY, ICE-CONTROLLING/CONTROLLED, USE-CANDIDATE) have no typed getter in the stun/turn crates: judged by raw value against the RFC 8445 big-endian layout");
     rep.assume("pair priorities >= 2^31 are outside RFC 8445's range; where both agents overflow u64 identically (overflow checks are on in this build) the pair is recorded, not judged");
     rep.assume("srflx/prflx/relay candidates are assembled from IceCandidate's public fields with the repository's priority formula (their constructors are private)");
-    rep.assume("TURN part uses real loopback sockets and wall-clock timers; a failing session is reported only when it fails three times in a row; TURN-over-TCP framing and ICE server URI parsing are private and not reached");
+    rep.assume("TURN part uses real loopback sockets and wall-clock timers; a failing session is reported only when it fails three times in a row; ICE server URI parsing is private and reached only through the turn: URLs used here; quick tier: TURN over TCP is not reached");
+    if thorough {
+        rep.assume("TURN over TCP: the cargo cache holds no independent TURN-over-TCP implementation (the turn crate serves datagram conns only), so the stream is read by a front end written in the harness after RFC 5766 s2.1 / RFC 5389 s7.2.2 (STUN messages delimited by their own length field, ChannelData padded to four bytes, no other framing) and every message it extracts is then judged by the stun / turn crates exactly like the UDP datagrams");
+        rep.assume("deep blocks: attribute values of a wrong size for their type (e.g. LIFETIME of 3 or 5 bytes) and attributes behind MESSAGE-INTEGRITY are enumerated but what rustrtc exposes for them is not judged (the property speaks of well-formed attribute values; RFC 5389 s15.4 lets a receiver ignore what follows MESSAGE-INTEGRITY); unknown comprehension-required attribute types may be rejected; candidate extensions rustrtc does not model (generation, ufrag, network-cost, unknown pairs) may be dropped on re-print; transport tokens are compared case-insensitively; candidate priorities of the public constructors are judged on RFC 8445 s5.1.2's MUSTs only");
+    }
 
     // vacuity guards
     if sw_f.passed == 0 && sw_f.fails.is_empty() || sw_f.classes.len() < 2 && sw_f.fails.is_empty() {
